@@ -318,9 +318,6 @@ func c09Compare(kind string, devNames []string, hist []int, got, want []delivere
 		if g.s.Drop != w.s.Drop {
 			return kind + "/drop-flag", fmt.Sprintf("update %d carried didDrop=%v, the window's drop flag is %v; deviations:%s", i, g.s.Drop, w.s.Drop, describe())
 		}
-		if g.s.Start != w.s.Start {
-			return kind + "/start-time", fmt.Sprintf("update %d carried start=%d, expected %d", i, g.s.Start, w.s.Start)
-		}
 	}
 	if len(got) != len(want) {
 		return kind + "/update-count", fmt.Sprintf("the delegate was updated %d times, the reference closes %d windows (got %v want %v); deviations:%s", len(got), len(want), got, want, describe())
